@@ -209,12 +209,12 @@ def gen_dataset_case(rng, confirm, i):
         if shape == "flat":
             d = []
         elif shape == "hive":
-            d = ["k=%s" % rng.choice(["a", "b", "zz"]), "n=%d" % rng.choice([1, 2, 30])][:levels]
+            d = ["k=%s" % rng.choice(["a", "b", "zz", "[x]", "a*b", "q?"]), "n=%d" % rng.choice([1, 2, 30])][:levels]   # values are data, not globs
         elif shape == "drill":
-            d = [rng.choice(["a", "b", "zz"]), rng.choice(["u", "w"])][:levels]
+            d = [rng.choice(["a", "b", "zz", "[x]", "a*b"]), rng.choice(["u", "w"])][:levels]
         else:
             d = ["sub%d" % j]
-        name = "f%d%s" % (j, ext) if shape != "subdatasets" else ""
+        name = ("f%d%s%s" % (j, rng.choice(["", "", "[1]", "-x y"]), ext)) if shape != "subdatasets" else ""
         if cat_mode == "differ":
             cats = rng.sample(["p", "q", "r", "s", "t"], rng.choice([2, 3]))
         elif cat_mode == "same":
